@@ -120,8 +120,8 @@ theorem C05_blocks_prefix (P : Prims) (hk : Bytes) (parts : List Bytes) (stream'
 theorem C05_header_mac_verified (P : Prims) (data : Bytes) (comp : Bytes) (d : Decrypted)
     (h : decrypt P data (some comp) = .ok d) :
     ∃ hdr hstart tk, parseOuterHeader data = .ok (hdr, hstart) ∧ runKdf P hdr.kdf hdr.kdfSeed comp = .ok tk
-      ∧ slice "decrypt_kdbx4:index" data hstart (hstart + 32) = .ok (P.sha256 (data.take hstart))
-      ∧ slice "decrypt_kdbx4:index" data (hstart + 32) (hstart + 64)
+      ∧ sliceE data hstart (hstart + 32) = .ok (P.sha256 (data.take hstart))
+      ∧ sliceE data (hstart + 32) (hstart + 64)
           = .ok (P.hmac256 (blockKey P (P.sha512 (hdr.masterSeed ++ tk ++ [1])) u64Max) (data.take hstart)) := by
   unfold decrypt at h
   simp only [bind, Outcome.bind] at h
@@ -132,28 +132,28 @@ theorem C05_header_mac_verified (P : Prims) (data : Bytes) (comp : Bytes) (d : D
     obtain ⟨hdr, hstart⟩ := p
     rw [hp] at h
     simp only at h
-    cases hs1 : slice "decrypt_kdbx4:index" data 0 hstart with
+    cases hs1 : sliceE data 0 hstart with
     | err e => rw [hs1] at h; cases h
     | panic s => rw [hs1] at h; cases h
     | ok headerData =>
       rw [hs1] at h; simp only at h
-      cases hs2 : slice "decrypt_kdbx4:index" data hstart (hstart + 32) with
+      cases hs2 : sliceE data hstart (hstart + 32) with
       | err e => rw [hs2] at h; cases h
       | panic s => rw [hs2] at h; cases h
       | ok headerSha =>
         rw [hs2] at h; simp only at h
-        cases hs3 : slice "decrypt_kdbx4:index" data (hstart + 32) (hstart + 64) with
+        cases hs3 : sliceE data (hstart + 32) (hstart + 64) with
         | err e => rw [hs3] at h; cases h
         | panic s => rw [hs3] at h; cases h
         | ok headerHmac =>
           rw [hs3] at h; simp only at h
-          cases hs4 : slice "decrypt_kdbx4:index" data (hstart + 64) data.length with
+          cases hs4 : sliceE data (hstart + 64) data.length with
           | err e => rw [hs4] at h; cases h
           | panic s => rw [hs4] at h; cases h
           | ok stream =>
             rw [hs4] at h; simp only at h
             have hhd : headerData = data.take hstart := by
-              unfold slice at hs1
+              unfold sliceE at hs1
               split at hs1
               · injection hs1 with hs1; simp at hs1; exact hs1.symm
               · cases hs1
